@@ -196,7 +196,7 @@ class Gen:
 
 
 def leaf_kind(d):
-    return {'num': 'num', 'fn': 'fn', 'str': 'str', 'pat': 'pat', 'operand': 'operand'}.get(d[0]) or 'seq' + d[1]
+    return {'num': 'num', 'fn': 'fn', 'str': 'str', 'pstr': 'str', 'pat': 'pat', 'operand': 'operand'}.get(d[0]) or 'seq' + d[1]
 
 
 def has_tag(e, tag):
@@ -226,6 +226,8 @@ def coq_leaf(d):
         return '(OStr [%s])' % '; '.join(cnum(i) for i in d[1])
     if t == 'pat':
         return '(OPat [%s])' % '; '.join(cnum(i) for i in d[1])
+    if t == 'pstr':
+        return '(OStr [%s])' % '; '.join(cnum(i) for i in d[1])      # a stream object yielding these values
     if t == 'seq':
         return '(OSeq %s [%s])' % ({'L': 'KList', 'T': 'KTuple', 'C': 'KChan'}[d[1]], '; '.join(coq_leaf(i) for i in d[2]))
     if t == 'operand':
@@ -264,6 +266,10 @@ def coq_expr(e, fixed=True):
     if t == 'nar':
         return '(ENar %s %s [%s])' % (coq_sel(e[1], 3, e[2], fixed), coq_expr(e[3], fixed),
                                       '; '.join(coq_expr(i, fixed) for i in e[4]))
+    if t == 'pseq':
+        return '(EPseq [%s] %d)' % ('; '.join(coq_expr(i, fixed) for i in e[1]), e[2])
+    if t == 'pn':
+        return '(EPn %s %d)' % (coq_expr(e[1], fixed), e[2])
     raise ValueError(e)
 
 
@@ -302,6 +308,8 @@ def txt_leaf(d, g):
         return 'routine_over([%s])' % ', '.join(pynum(nval(i)) for i in d[1])
     if t == 'pat':
         return 'Pseq([%s])' % ', '.join(pynum(nval(i)) for i in d[1])
+    if t == 'pstr':
+        return 'stream(Pseq([%s]))' % ', '.join(pynum(nval(i)) for i in d[1])
     if t == 'seq':
         inner = ', '.join(txt_leaf(i, g) for i in d[2])
         return {'L': '[%s]', 'T': '(%s,)', 'C': 'ChannelList([%s])'}[d[1]] % inner
@@ -327,6 +335,10 @@ def txt_expr(e, g):
         a = txt_expr(e[3], g)
         args = ', '.join(txt_expr(i, g) for i in e[4])
         return ('%s.%s(%s)' % (a, e[1], args)) if e[2] == 'meth' else 'bi.%s(%s, %s)' % (e[1], a, args)
+    if t == 'pseq':
+        return 'Pseq([%s], %d)' % (', '.join(txt_expr(i, g) for i in e[1]), e[2])
+    if t == 'pn':
+        return 'Pn(%s, %d)' % (txt_expr(e[1], g), e[2])
 
 
 def case_text(c):
@@ -337,6 +349,7 @@ def case_text(c):
 # case generation
 
 ABS_KINDS = ['fn', 'str', 'pat', 'seqC', 'operand']
+CMP5 = ('lt', 'le', 'gt', 'ge', 'eq', 'ne')
 
 
 def is_abs_leaf(d):
@@ -347,6 +360,8 @@ def top_kind(e):
     """kind of the object an expression builds: kind of the operand that composes"""
     if e[0] == 'leaf':
         return leaf_kind(e[1])
+    if e[0] in ('pseq', 'pn'):
+        return 'pat'
     if e[0] == 'bin':
         a, b = top_kind(e[3]), top_kind(e[4])
         return a if a not in ('num', 'seqL', 'seqT') else (b if b not in ('seqL', 'seqT') or a == 'num' else a)
@@ -495,6 +510,59 @@ def gen_cases(ctx, n_per):
                     args.append(binop_expr(g, n1, p1, ['leaf', x1], ['leaf', y1]))
             mode = 'bi' if (k == 'seqC' or name in NO_METHOD) else rng.choice(['bi', 'meth'])   # ChannelList overrides the methods
             finish(g, ['nar', name, mode, a, args], 'narop:' + k)
+
+    # 5. operator patterns / operator streams EMBEDDED in enclosing patterns (Pseq / Pn, also nested
+    #    twice): Punop.__embed__, Pattern.__embed__ (Pbinop), Pnarop.__embed__ and Stream.__embed__ are only
+    #    reached this way.  Operands of every kind on every position: number, Pattern, Routine and
+    #    already-made pattern stream (both yielding VARYING values), Function.
+    exact1 = [x for x in all1 if x[0] not in INEXACT1]
+
+    def opnd(g, kinds5):
+        k5 = rng.choice(kinds5)
+        if k5 == 'num':
+            return ['leaf', g.num()]
+        if k5 == 'fn':
+            return ['leaf', g.fn()]
+        lst = g.nums(lo=1, hi=5)
+        return ['leaf', [k5, lst]]
+
+    def enclose(g, c, has_stream):
+        reps = 1 if has_stream else rng.choice([1, 1, 2])     # a Routine is spent after the first repetition
+        r = rng.random()
+        pad = lambda: ['leaf', g.num()]
+        if r < 0.25:
+            return ['pseq', [c], reps]
+        if r < 0.45:
+            return ['pseq', [pad(), c, pad()], reps]
+        if r < 0.6:
+            return ['pn', c, reps]
+        if r < 0.8:
+            return ['pseq', [['pseq', [c, pad()], 1]], reps]           # nested twice
+        return ['pn', ['pseq', [pad(), ['pn', c, 1]], 1], reps]
+
+    for _ in range(n_per * 40):
+        g = Gen(rng)
+        first = rng.choice(['pat', 'pat', 'str', 'pstr'])               # the composing operand: pattern or stream class
+        others = ['num', 'pat', 'str', 'pstr', 'fn']
+        ar5 = rng.choice([1, 2, 2, 3, 3, 3])
+        a = ['leaf', [first, g.nums(lo=1, hi=5)]]
+        if ar5 == 1:
+            name, py = rng.choice(exact1)
+            c = ['un', name, um(name, py), a]
+        elif ar5 == 2:
+            name, py = rng.choice(exact2)
+            b = opnd(g, others)
+            if rng.random() < 0.5 or b[1][0] in ('num', 'fn'):
+                ea, eb = (a, b) if rng.random() < 0.6 else (b, a)
+            else:
+                ea, eb = a, b
+            c = binop_expr(g, name, py, ea, eb)
+        else:
+            name = rng.choice(tn)
+            args = [opnd(g, ['num', 'pat', 'str', 'pstr']) for _i in range(2)]   # a Function argument would reach the kernel unevaluated
+            c = ['nar', name, 'bi' if name in NO_METHOD else rng.choice(['bi', 'meth']), a, args]
+        has_stream = has_tag(c, 'str') or has_tag(c, 'pstr')
+        finish(g, enclose(g, c, has_stream), 'embedded:%d:%s' % (ar5, first))
     return cases
 
 
